@@ -240,9 +240,10 @@ Proof.
   destruct (structure_check st (Some p) c) eqn:Hsc; cbn [negb]; [|apply Ext_refl; exact G].
   destruct (opt_eqb (q_raw_last_child st p) (Some c)); [apply Ext_refl; exact G|].
   destruct (remove_consolidate st (q_prev st c) (q_next st c)) as [st1 m0] eqn:E1.
-  destruct (add_consolidate st1 c (q_last_child st1 p) None) as [st2 m] eqn:E2.
+  cbv zeta. set (last := if opt_eqb (q_last_child st1 p) (Some c) then q_prev st1 c else q_last_child st1 p).
+  destruct (add_consolidate st1 c last None) as [st2 m] eqn:E2.
   pose proof (Ext_remove_consolidate st (q_prev st c) (q_next st c) G) as X1. rewrite E1 in X1. cbn [fst] in X1.
-  pose proof (Ext_add_consolidate st1 c (q_last_child st1 p) None (ext_good _ _ X1)) as X2. rewrite E2 in X2. cbn [fst] in X2.
+  pose proof (Ext_add_consolidate st1 c last None (ext_good _ _ X1)) as X2. rewrite E2 in X2. cbn [fst] in X2.
   destruct m; cbn [fst]; [eapply Ext_trans; eauto|].
   apply add_consolidate_cases in E2 as [[_ ->]|[Hm _]]; [|discriminate].
   eapply Ext_trans; [exact X1|].
@@ -327,8 +328,9 @@ Proof.
   destruct (opt_eqb (q_next st n) (Some r)) eqn:Enoop; [apply Ext_refl; exact G|].
   destruct (remove_consolidate st (q_prev st n) (q_next st n)) as [st1 m0] eqn:E1.
   pose proof (Ext_remove_consolidate st (q_prev st n) (q_next st n) G) as X1. rewrite E1 in X1. cbn [fst] in X1.
-  destruct (add_consolidate st1 n (q_prev st1 r) (Some r)) as [st2 m] eqn:E2.
-  pose proof (Ext_add_consolidate st1 n (q_prev st1 r) (Some r) (ext_good _ _ X1)) as X2. rewrite E2 in X2. cbn [fst] in X2.
+  cbv zeta. set (prev := if opt_eqb (q_prev st1 r) (Some n) then q_prev st1 n else q_prev st1 r).
+  destruct (add_consolidate st1 n prev (Some r)) as [st2 m] eqn:E2.
+  pose proof (Ext_add_consolidate st1 n prev (Some r) (ext_good _ _ X1)) as X2. rewrite E2 in X2. cbn [fst] in X2.
   destruct m; cbn [fst]; [eapply Ext_trans; eauto|].
   apply add_consolidate_cases in E2 as [[_ ->]|[Hm _]]; [|discriminate].
   eapply Ext_trans; [exact X1|].
@@ -845,7 +847,8 @@ Proof.
   pose proof (Ext_remove_consolidate st (q_prev st c) (q_next st c) G) as X1. rewrite E1 in X1. cbn [fst] in X1.
   assert (is_top st1 top V) as T1.
   { apply remove_consolidate_cases in E1 as [[_ ->]|[_ (n & _ & Hm)]]; [exact T|eapply is_top_merged; eauto]. }
-  destruct (add_consolidate st1 c (q_last_child st1 p) None) as [st2 m] eqn:E2.
+  cbv zeta. set (last := if opt_eqb (q_last_child st1 p) (Some c) then q_prev st1 c else q_last_child st1 p).
+  destruct (add_consolidate st1 c last None) as [st2 m] eqn:E2.
   apply add_consolidate_cases in E2 as [[-> ->]|[-> Hm]]; cbn [fst].
   - apply is_top_move; [apply X1|exact T1|exact Hne|]. apply (is_top_child_ins p (fun t k => fapp k t)).
     intros t k. rewrite nodes_fapp. reflexivity.
